@@ -114,6 +114,10 @@ Theorem session_write_sites_are_modelled :
   same_set session_write_sites modelled_write_sites = true /\ nested_writes_namespace = false.
 Proof. split; vm_compute; reflexivity. Qed.
 
+Theorem call_compiler_objects_are_stateless :
+  same_set call_object_state modelled_call_object_state = true.
+Proof. vm_compute. reflexivity. Qed.
+
 (* ---- a non-trivial instance: the hypotheses are satisfiable and the histories differ *)
 Definition D (ty : bool) deps ok ct tr ntmp nconst ngen rets insts (rc : bool) row body : Def :=
   mkDef ty deps (if rc then [1] else @nil Z) ok ct tr ntmp 1 nconst ngen rets insts rc row body.
